@@ -313,6 +313,10 @@ func c09Run(w *fw.W, idx int) {
 	// legitimately differs between them, so such a program is run under the
 	// reference configuration everywhere.
 	opts := c09Opts
+	if label == "generated" {
+		// generated programs may also HANDLE a limit error, which the outcome does not show
+		opts = func(int) rt.Opts { return c09Opts(0) }
+	}
 	for _, r := range ref {
 		if c09LimitBound(r.val) {
 			opts = func(int) rt.Opts { return c09Opts(0) }
